@@ -90,13 +90,22 @@ class PropGen12:
         self.sim = sim
         self.acount = 0
         self.free = list(TOPICS)
+        self.used = []
 
     def take_topics(self, n):
+        """Topics are distinct inside one event; across positions a topic is sometimes reused (legal:
+        `a {x > 1} causes a {x < 1}`)."""
         s = self.sim
         out = []
         for _ in range(n):
+            if self.used and s.coin('reuse_topic', 0.15):
+                cand = [t for t in self.used if t not in out]
+                if cand:
+                    out.append(s.pick('reused', cand))
+                    continue
             i = s.choose('topic', len(self.free))
             out.append(self.free.pop(i))
+        self.used.extend(t for t in out if t not in self.used)
         return out
 
     def event(self, width, visible, may_alias):
@@ -141,6 +150,11 @@ class PropGen12:
         elif pattern == 'requirement':
             beh, al = self.event(width(), vis, True)
             trig, _ = self.event(width(), vis + al, True)
+        elif s.coin('mirror', 0.08):
+            # the same event in both positions (`(a or b) forbids (a or b) within 1 s`: a rate limit);
+            # no aliases, a name can only be bound once
+            trig, _ = self.event(width(), vis, False)
+            beh = trig
         else:
             trig, al = self.event(width(), vis, True)
             beh, _ = self.event(width(), vis + al, True)
@@ -277,7 +291,7 @@ def simulate(sim, pdesc, cfg, on_deliver):
     """Build the system for this property and run it."""
     scope, act, term = pdesc['scope']
     pk, trig, beh, bound = pdesc['pattern']
-    used = topics_of(act) + topics_of(term) + topics_of(trig) + topics_of(beh)
+    used = list(dict.fromkeys(topics_of(act) + topics_of(term) + topics_of(trig) + topics_of(beh)))
     extra = [t for t in TOPICS if t not in used]
     # swarm: which fault kinds are enabled in this run, and how hard
     fc = {
